@@ -498,5 +498,16 @@ func main() {
 
 	// T3: structural concurrency facts (facts.go)
 	emitFacts(repo, out)
+
+	// T2 (C07): straight-line float code of distance/dna
+	emitNumericDist(repo, out, en)
+
+	// T3 (C19): mutation facts (mutfacts.go)
+	emitMutFacts(repo, out)
+
+	// T3 (C11): sources of run-to-run nondeterminism (detfacts.go)
+	emitDetFacts(repo, out)
+
+	// T3 (C02/C03): guard facts of the format parsers (fmtfacts.go)
 	emitFmtFacts(repo, out)
 }
